@@ -141,6 +141,11 @@ func (f *Future[T]) close(v any) {
 	f.tellForwarders(toSend, f.message, f.err)
 }
 
+// Closed 返回 Future 是否已经完成（收到应答、超时或被关闭）。
+func (f *Future[T]) Closed() bool {
+	return f.closed.Load()
+}
+
 func (f *Future[T]) Result() (T, error) {
 	<-f.done
 	return f.message, f.err
